@@ -34,7 +34,7 @@ import (
 // scenarios
 
 type step struct {
-	Op     string `json:"op"` // addrunner addcloser addclosermix addcloserbad gateadd ungate run close relr relc sleep pcancel
+	Op     string `json:"op"` // addrunner addcloser addclosermix addcloserasync addcloserbad gateadd ungate run runpark unpark close relr relc sleep pcancel
 	I      int    `json:"i,omitempty"`
 	D      int    `json:"d,omitempty"`      // sleep: virtual milliseconds
 	NoWait bool   `json:"nowait,omitempty"` // the next step races with this one (no quiescence in between)
@@ -150,6 +150,9 @@ type exec struct {
 	gate   chan struct{}
 	gated  bool
 	armed  atomic.Bool
+	park      chan struct{} // a Run held at a *.run.afterCAS point waits here
+	unparked  bool
+	parkPoint atomic.Value // string: the point at which the next Run is to be held ("" none)
 	rm     *concurrency.RunnerManager
 	rcm    *concurrency.RunnerCloserManager
 	ctx    context.Context
@@ -273,8 +276,28 @@ func (x *exec) closer(j int) any {
 }
 
 func (x *exec) hook(point string) {
-	if point == "addcloser.afterCheck" && x.armed.CompareAndSwap(true, false) {
-		<-x.gate
+	switch point {
+	case "addcloser.afterCheck":
+		if x.armed.CompareAndSwap(true, false) {
+			<-x.gate
+		}
+	case "closer.run.afterCAS", "runner.run.afterCAS":
+		// the manager under test is x.rcm or x.rm: its own Run winning the running flag is the evidence that it was
+		// started (the inner RunnerManager of a closer manager is not announced)
+		if (point == "closer.run.afterCAS") == (x.rcm != nil) {
+			x.ev("runstarted", nil)
+		}
+		if pp, _ := x.parkPoint.Load().(string); pp == point {
+			x.parkPoint.Store("")
+			<-x.park
+		}
+	}
+}
+
+func (x *exec) unpark() {
+	if !x.unparked {
+		x.unparked = true
+		close(x.park)
 	}
 }
 
@@ -348,7 +371,13 @@ func (x *exec) do(st step) {
 		}()
 	case "ungate":
 		x.ungate()
-	case "run":
+	case "unpark":
+		x.unpark()
+	case "run", "runpark":
+		if st.Op == "runpark" { // Run is held right after it won its running CAS (I: 0 closer manager's, 1 inner / plain manager's)
+			x.parkPoint.Store([]string{"closer.run.afterCAS", "runner.run.afterCAS"}[st.I])
+			defer synctest.Wait() // let it get there; no quiescence event: the harness itself holds Run
+		}
 		x.nrun++
 		id := x.nrun
 		x.ev("runcall", tv.M{"id": id})
@@ -398,6 +427,8 @@ func (x *exec) body() {
 		x.relC[j] = make(chan struct{})
 	}
 	x.gate = make(chan struct{})
+	x.park = make(chan struct{})
+	x.parkPoint.Store("")
 	if sc.PDL >= 0 {
 		x.ctx, x.cancel = context.WithTimeout(context.Background(), time.Duration(sc.PDL)*time.Millisecond)
 	} else {
@@ -430,7 +461,9 @@ func (x *exec) body() {
 	x.open = false
 	x.mu.Unlock()
 	x.armed.Store(false)
+	x.parkPoint.Store("")
 	x.ungate()
+	x.unpark()
 	for i := range x.relR {
 		x.releaseR(i)
 	}
@@ -487,7 +520,7 @@ func countOps(sc scenario, op string) int {
 
 func record(b *tv.Batch, sc scenario, evs []rec) int {
 	tr := b.Start(tv.M{"kind": sc.Kind, "G": sc.Grace, "pdl": sc.PDL, "nr": sc.NR, "nc": sc.NC, "r0": sc.R0,
-		"nruns": countOps(sc, "run"), "ncl": countOps(sc, "close")})
+		"nruns": countOps(sc, "run") + countOps(sc, "runpark"), "ncl": countOps(sc, "close")})
 	for _, e := range evs {
 		b.Ev(e.name, e.m)
 	}
@@ -511,6 +544,7 @@ type params struct {
 	grace   string // unset generous exceeded boundary tie
 	late    string // none during mix closing after gate-after gate-closing
 	extras  bool   // unsupported closer type, second Run, Add after Run
+	park    string // "" | outer | inner: Run is held at closer.run.afterCAS / runner.run.afterCAS while Add and AddCloser are called
 }
 
 const graceMs = 100
@@ -548,8 +582,27 @@ func build(p params) scenario {
 	for i := sc.R0 + 1; i <= p.nr; i++ {
 		S("addrunner", i)
 	}
+	// Run held right after its running CAS while another goroutine offers a runner (has to be rejected: the manager
+	// has been started) and, on a closer manager, a closer (the closers have not been started: has to be accepted,
+	// invoked and waited for)
+	parked := func() {
+		tag("park=" + p.park)
+		pt := 0
+		if p.park == "inner" {
+			pt = 1
+		}
+		st = append(st, step{Op: "runpark", I: pt, NoWait: true}, step{Op: "addrunner", I: p.nr + 1, NoWait: true})
+		if p.kind == "rcm" && (p.late == "during" || p.late == "mix") && p.nr > 0 {
+			st = append(st, step{Op: map[string]string{"during": "addcloser", "mix": "addclosermix"}[p.late], I: p.nc + 1, NoWait: true})
+		}
+		S("unpark", 0)
+	}
 	if p.kind == "rm" {
-		S("run", 0)
+		if p.park != "" {
+			parked()
+		} else {
+			S("run", 0)
+		}
 		switch p.trigger {
 		case "pcancel":
 			S("pcancel", 0)
@@ -580,11 +633,17 @@ func build(p params) scenario {
 		if p.closeAt == "before2" {
 			st = append(st, step{Op: "close", NoWait: true}, step{Op: "close"})
 		}
-		S("run", 0)
+		// the manager never ran and never will: Add is rejected, a later Run fails (in either order)
+		if p.extras {
+			S("run", 0)
+		}
+		S("addrunner", p.nr+1)
 		if lateID != 0 {
 			S("addcloser", lateID)
 		}
-		S("addrunner", p.nr+1)
+		if !p.extras {
+			S("run", 0)
+		}
 		for _, i := range p.rorder {
 			S("relr", i)
 		}
@@ -606,14 +665,18 @@ func build(p params) scenario {
 		st = append(st, step{Op: "run", NoWait: true}, step{Op: "close"})
 	} else if p.closeAt == "racestart-r" { // the goroutine created last usually runs first: this order lets Run win
 		st = append(st, step{Op: "close", NoWait: true}, step{Op: "run"})
+	} else if p.park != "" {
+		parked()
 	} else {
 		S("run", 0)
 	}
-	switch p.late {
-	case "during":
-		S("addcloser", lateID)
-	case "mix":
-		S("addclosermix", lateID)
+	if p.park == "" {
+		switch p.late {
+		case "during":
+			S("addcloser", lateID)
+		case "mix":
+			S("addclosermix", lateID)
+		}
 	}
 	switch p.trigger {
 	case "close":
@@ -849,6 +912,33 @@ func generate(rng *rand.Rand) []scenario {
 		}
 	}
 
+	// (5) Run held right after its running CAS (at the closer manager's and at the inner / plain manager's point)
+	//     while Add and AddCloser are called from another goroutine
+	for nr := 0; nr <= 2; nr++ {
+		for _, ro := range perms(nr) {
+			for _, trg := range []string{"runner", "pcancel"} {
+				add(params{kind: "rm", nr: nr, rres: randTuple(rng, rClasses, nr), rorder: ro, trigger: trg, addOne: rng.Intn(2) == 0,
+					extras: true, park: "inner"})
+			}
+			for nc := 0; nc <= 2; nc++ {
+				for _, co := range perms(nc) {
+					for _, pk := range []string{"outer", "inner"} {
+						for _, ca := range []string{"none", "during2", "afterfirst", "closers", "after"} {
+							for _, l := range []string{"none", "during", "mix", "after"} {
+								for rep := 0; rep < ev.Pick(1, 4); rep++ {
+									cr := randTuple(rng, cClasses, nc)
+									add(params{kind: "rcm", nr: nr, nc: nc, rres: randTuple(rng, rClasses, nr), cres: cr, ctype: ctypes(rng, cr, len(out)),
+										rorder: ro, corder: co, trigger: pick(rng, triggers), closeAt: ca, grace: pick(rng, graces), late: l,
+										addOne: rng.Intn(2) == 0, extras: rng.Intn(2) == 0, park: pk})
+								}
+							}
+						}
+					}
+				}
+			}
+		}
+	}
+
 	// (4) larger random scenarios
 	maxN := ev.Pick(3, 4)
 	for n := 0; n < ev.Pick(3000, 30000); n++ {
@@ -907,7 +997,7 @@ func TestCheck(t *testing.T) {
 	// 2 x 1; 1 runner x 3 closers), side by side
 	mcCfgs := ev.Pick([]string{"MC_small.cfg"}, []string{"MC_big.cfg", "MC_big_classes.cfg", "MC_big_closers.cfg"})
 	mcs := make([]tlc.Result, len(mcCfgs))
-	defects := []string{"MC_defect_addcloser.cfg", "MC_defect_errsearly.cfg", "MC_defect_releaselate.cfg", "MC_defect_filterctxerr.cfg"}
+	defects := []string{"MC_defect_addnocheck.cfg", "MC_defect_addcloser.cfg", "MC_defect_errsearly.cfg", "MC_defect_releaselate.cfg", "MC_defect_filterctxerr.cfg"}
 	dres := make([]tlc.Result, len(defects))
 	for i := range mcCfgs {
 		wg.Add(1)
@@ -969,7 +1059,7 @@ func TestCheck(t *testing.T) {
 		"Add racing the start of Run (unsynchronised access to the runner slice) is not staged; closers always return eventually",
 		"the fatal-shutdown action is replaced by a recording function (WithFatalShutdown), so the behaviour after it fired is observed instead of the process exiting")
 	e.Set("scenarios_with_goroutines_left_blocked", int64(dead))
-	e.Set("rule", "every case = one scripted life of a manager: (plain or closer manager; 0..N runners each returning nil | an error | an error wrapping DeadlineExceeded | context.Canceled | an error wrapping Canceled | ctx.Err(); 0..N closers of the types io.Closer / func(context.Context) error / func() error / func() each returning nil | an error | an error wrapping Canceled; the order in which the harness lets the runners and the closers return; what ends the run: a runner returning, Close, cancellation or deadline of the parent context; where Close is called: never, before Run (once / three times), racing the start of Run (either call issued first), twice concurrently during the run, after the first runner returned, while the closers run, after Run returned (once / three times); grace period unset | closers well within | closers exceed it | probed 1ms before and 1ms after | a closer returning at the very instant; AddCloser: during the run, mixed with an unsupported value, while the closers run, after Run returned, stopped between its closing check and the lock until the closers finished / ran; unsupported closer type, second Run, Add after Run). Exhaustive over result assignments x completion orders for the plain manager (<=3 runners, 4 in thorough) and for the closer manager (<=2x2, 3x3 in thorough), exhaustive over Close placement x grace mode x AddCloser mode x completion orders (<=2x2, 3x3 thorough), seeded-random above. The harness steps one action at a time and records a quiescence event (synctest.Wait) after each; non-trivial = at least two parties released, or a Close call, or a grace period; distinct by the full scenario")
+	e.Set("rule", "every case = one scripted life of a manager: (plain or closer manager; 0..N runners each returning nil | an error | an error wrapping DeadlineExceeded | context.Canceled | an error wrapping Canceled | ctx.Err(); 0..N closers of the types io.Closer / func(context.Context) error / func() error / func() each returning nil | an error | an error wrapping Canceled; the order in which the harness lets the runners and the closers return; what ends the run: a runner returning, Close, cancellation or deadline of the parent context; where Close is called: never, before Run (once / three times), racing the start of Run (either call issued first), twice concurrently during the run, after the first runner returned, while the closers run, after Run returned (once / three times); grace period unset | closers well within | closers exceed it | probed 1ms before and 1ms after | a closer returning at the very instant; AddCloser: during the run, mixed with an unsupported value, while the closers run, after Run returned, stopped between its closing check and the lock until the closers finished / ran; unsupported closer type, second Run, Add after Run, Add / AddCloser / Run after Close on a manager that never ran; Run held right after its running CAS (verif points closer.run.afterCAS, runner.run.afterCAS) while Add and AddCloser are called). Exhaustive over result assignments x completion orders for the plain manager (<=3 runners, 4 in thorough) and for the closer manager (<=2x2, 3x3 in thorough), exhaustive over Close placement x grace mode x AddCloser mode x completion orders (<=2x2, 3x3 thorough), seeded-random above. The harness steps one action at a time and records a quiescence event (synctest.Wait) after each; non-trivial = at least two parties released, or a Close call, or a grace period; distinct by the full scenario")
 	for _, i := range []int{len(scs) / 7, len(scs) / 2, len(scs) - 3} {
 		evs, _, _ := runScenario(t, scs[i])
 		b := &tv.Batch{}
